@@ -72,6 +72,14 @@ type simState struct {
 	outer   *simState
 }
 
+func (st *simState) depth() int {
+	n := 0
+	for o := st.outer; o != nil; o = o.outer {
+		n++
+	}
+	return n
+}
+
 func (st *simState) clone() *simState {
 	n := &simState{env: map[ssa.Value]tri{}, deps: map[ssa.Value]string{}, flags: map[string]tri{}, fdeps: map[string]string{}, stored: map[string]bool{}, bind: st.bind, visits: map[*ssa.BasicBlock]int{}, recvs: st.recvs, outer: st.outer}
 	for k, v := range st.env {
@@ -117,7 +125,7 @@ func (bs *boolSim) operandKey(v ssa.Value, st *simState) string {
 		if x.Op == token.MUL {
 			switch a := x.X.(type) {
 			case *ssa.FieldAddr:
-				return fieldName(a.X.Type(), a.Field)
+				return bs.chainKey(a, st)
 			case *ssa.IndexAddr:
 				return bs.operandKey(a.X, st) + "[" + bs.operandKey(a.Index, st) + "]"
 			case *ssa.Global:
@@ -127,13 +135,48 @@ func (bs *boolSim) operandKey(v ssa.Value, st *simState) string {
 	case *ssa.Global:
 		return x.Name()
 	case *ssa.Field:
-		return fieldName(x.X.Type(), x.Field)
+		return joinKey(bs.chainKey(x.X, st), fieldName(x.X.Type(), x.Field))
 	case *ssa.BinOp:
 		if x.Op == token.AND || x.Op == token.OR {
 			return "(" + bs.operandKey(x.X, st) + x.Op.String() + bs.operandKey(x.Y, st) + ")"
 		}
 	case *ssa.Index:
 		return bs.operandKey(x.X, st) + "[" + bs.operandKey(x.Index, st) + "]"
+	}
+	return path(v)
+}
+
+func joinKey(a, b string) string {
+	if a == "" {
+		return b
+	}
+	return a + "." + b
+}
+
+// chainKey: the field names along an access path, without the variable the path starts from (parameters of a helper are
+// replaced by the caller's argument).
+func (bs *boolSim) chainKey(v ssa.Value, st *simState) string {
+	switch x := v.(type) {
+	case *ssa.FieldAddr:
+		return joinKey(bs.chainKey(x.X, st), fieldName(x.X.Type(), x.Field))
+	case *ssa.Field:
+		return joinKey(bs.chainKey(x.X, st), fieldName(x.X.Type(), x.Field))
+	case *ssa.UnOp:
+		if x.Op == token.MUL {
+			if _, ok := x.X.(*ssa.Alloc); ok {
+				return ""
+			}
+			return bs.chainKey(x.X, st)
+		}
+	case *ssa.Parameter:
+		if a, ok := st.bind[x]; ok && st.outer != nil {
+			return bs.chainKey(a, st.outer)
+		}
+		return ""
+	case *ssa.Alloc:
+		return ""
+	case *ssa.ChangeType:
+		return bs.chainKey(x.X, st)
 	}
 	return path(v)
 }
@@ -222,7 +265,7 @@ func (bs *boolSim) eval(v ssa.Value, st *simState) (tri, string) {
 			}
 		}
 	case *ssa.Call:
-		if f := x.Call.StaticCallee(); f != nil && f.Blocks != nil && isBoolType(x.Type()) && st.outer == nil {
+		if f := x.Call.StaticCallee(); f != nil && f.Blocks != nil && isBoolType(x.Type()) && st.depth() < 3 {
 			// a module helper that returns the flag: evaluate it under the same assignment with its parameters bound
 			bind := map[*ssa.Parameter]ssa.Value{}
 			for i, p := range f.Params {
@@ -396,4 +439,39 @@ func assignStr(a map[string]bool) string {
 	}
 	sort.Strings(ks)
 	return strings.Join(ks, ", ")
+}
+
+// predicateTable evaluates a boolean function of a descriptor for every value of the given integer keys: vals maps a key
+// ("T", "V.T") to the value it has; the result is the common value of all return paths (triU when they disagree or depend
+// on something else).
+func predicateValue(fn *ssa.Function, vals map[string]int64) tri {
+	bs := &boolSim{maxPath: 4096, atom: func(key string) tri {
+		i := strings.Index(key, "==")
+		if i < 0 {
+			return triU
+		}
+		v, ok := vals[key[:i]]
+		if !ok {
+			return triU
+		}
+		var cst int64
+		if _, err := fmt.Sscan(key[i+2:], &cst); err != nil {
+			return triU
+		}
+		return triOf(v == cst)
+	}}
+	st := &simState{env: map[ssa.Value]tri{}, deps: map[ssa.Value]string{}, flags: map[string]tri{}, fdeps: map[string]string{}, stored: map[string]bool{}, bind: map[*ssa.Parameter]ssa.Value{}, visits: map[*ssa.BasicBlock]int{}, recvs: map[ssa.Value]bool{}}
+	res := map[tri]bool{}
+	for _, p := range bs.runFrom(fn.Blocks[0], nil, st) {
+		if len(p.results) != 1 {
+			return triU
+		}
+		res[p.results[0]] = true
+	}
+	if len(res) == 1 && !bs.over {
+		for t := range res {
+			return t
+		}
+	}
+	return triU
 }
